@@ -222,38 +222,52 @@ async fn wrap_case(role: Role, n: u32) -> Vec<(String, String)> {
     let mut last: u16 = 0;
     let mut wrapped = false;
     let mut wire_seen = 0usize;
-    for k in 0..n {
-        let fut = sink.send_qos1(&PubSpec::new("w", k.to_be_bytes().to_vec()));
-        let mut op = Op::new(&app, next_op_id(), "q1", fut);
-        op.start();
+    let mut k = 0u32;
+    'outer: while k < n {
+        // three sends outstanding at the same time (the window is 4)
+        let mut ops = Vec::new();
+        for j in 0..3u32 {
+            let fut = sink.send_qos1(&PubSpec::new("w", (k + j).to_be_bytes().to_vec()));
+            let mut op = Op::new(&app, next_op_id(), "q1", fut);
+            op.start();
+            ops.push(op);
+        }
         c.settle().await;
         let wire = app.wire();
-        let pid = wire.iter().skip(wire_seen).find_map(|(_, p)| if let R::Publish { pid: Some(p), .. } = p { Some(*p) } else { None });
+        let pids: Vec<u16> = wire.iter().skip(wire_seen).filter_map(|(_, p)| if let R::Publish { pid: Some(p), .. } = p { Some(*p) } else { None }).collect();
         wire_seen = wire.len();
-        let Some(pid) = pid else {
-            vio.push(("send did not reach the wire on a healthy connection".into(), format!("send #{k}, result {:?}", op.result())));
+        if pids.len() != 3 {
+            vio.push(("send did not reach the wire on a healthy connection".into(), format!("sends #{k}..: {} of 3 on the wire, results {:?}", pids.len(), ops.iter().map(Op::result).collect::<Vec<_>>())));
             break;
-        };
-        if pid == 0 {
-            vio.push(("packet identifier 0 used".into(), format!("send #{k}")));
         }
-        if pid < last {
-            wrapped = true;
-        }
-        last = pid;
-        seen_ids.insert(pid);
-        c.peer.send(&ack_packet(v5, AckT::PubAck, pid));
-        c.settle().await;
-        if !matches!(op.result(), Some(r) if r.is_ok()) {
-            vio.push(("acknowledged send did not complete successfully".into(), format!("send #{k} pid {pid}: {:?}", op.result())));
+        if pids[0] == pids[1] || pids[1] == pids[2] || pids[0] == pids[2] {
+            vio.push(("concurrently outstanding sends share a packet identifier".into(), format!("sends #{k}..: ids {pids:?}")));
             break;
+        }
+        for (j, pid) in pids.iter().enumerate() {
+            if *pid == 0 {
+                vio.push(("packet identifier 0 used".into(), format!("send #{}", k + j as u32)));
+            }
+            if *pid < last {
+                wrapped = true;
+            }
+            last = *pid;
+            seen_ids.insert(*pid);
+        }
+        for (j, pid) in pids.iter().enumerate() {
+            c.peer.send(&ack_packet(v5, AckT::PubAck, *pid));
+            c.settle().await;
+            if !matches!(ops[j].result(), Some(r) if r.is_ok()) {
+                vio.push(("acknowledged send did not complete successfully".into(), format!("send #{} pid {pid}: {:?}", k + j as u32, ops[j].result())));
+                break 'outer;
+            }
         }
         if !app.stops().is_empty() {
             vio.push(("connection ended during a correctly acknowledged history".into(), format!("send #{k}: {:?}", app.stops())));
             break;
         }
-        // trim the log to keep memory flat
-        if k % 512 == 0 {
+        k += 3;
+        if k % 1536 == 0 {
             app.log(Ev::Note(format!("progress {k}")));
         }
     }
@@ -266,6 +280,74 @@ async fn wrap_case(role: Role, n: u32) -> Vec<(String, String)> {
     vio
 }
 
+/// D: a send that fails locally must not poison its caller-chosen packet id: the retry with the
+/// same id (a send that can be encoded) goes out and completes when acknowledged
+async fn retry_case(role: Role, fail: u8, qos: u8, pid: u16) -> Vec<(String, String)> {
+    let app = App::new("retry");
+    let mut cfg = ConnCfg::new(role);
+    cfg.max_send = 4;
+    cfg.peer_max_packet_size = Some(200);
+    if role == Role::V5Client {
+        cfg.connack_props = vec![crate::refcodec::Prop::U16(0x21, 4), crate::refcodec::Prop::U32(0x27, 200)];
+    }
+    let mut c = conn::start(&cfg, app.clone()).await;
+    let sink = c.sink();
+    let v5 = role.is_v5();
+    let mut vio = Vec::new();
+    let what = format!("{} failing kind {fail} qos {qos} id {pid}", role.name());
+    let bad = match fail {
+        0 => PubSpec::new(&"t".repeat(65_540), vec![1]).pid(Some(pid)),
+        _ => PubSpec::new("big", vec![7; 2_000]).pid(Some(pid)),
+    };
+    let start = |spec: &PubSpec, name: &str| {
+        let fut = if qos == 1 {
+            sink.send_qos1(spec)
+        } else {
+            let ch = crate::sink::Chan::new();
+            ch.push(crate::sink::ReceiptCmd::Release);
+            sink.send_qos2(spec, ch, std::rc::Rc::new(|_, _| {}))
+        };
+        let mut op = Op::new(&app, next_op_id(), name, fut);
+        op.start();
+        op
+    };
+    let op1 = start(&bad, "failing");
+    c.settle().await;
+    match op1.result() {
+        Some(SinkRes::ErrEncode(_)) => {}
+        other => {
+            if !(fail == 1 && !v5) {
+                vio.push(("send that cannot be encoded did not fail locally".into(), format!("{other:?} — {what}")));
+            }
+            // v3 has no outbound size limit: the big publish is simply sent
+            if fail == 1 && !v5 {
+                return vio;
+            }
+        }
+    }
+    let wire_before = app.wire().len();
+    let op2 = start(&PubSpec::new("ok", vec![1, 2, 3]).pid(Some(pid)), "retry");
+    c.settle().await;
+    let on_wire = app.wire().iter().skip(wire_before).any(|(_, p)| matches!(p, R::Publish { pid: Some(p), .. } if *p == pid));
+    if !on_wire {
+        vio.push(("retry with the packet id of a send that failed locally was refused".into(), format!("{:?} — {what}", op2.result())));
+        return vio;
+    }
+    if qos == 1 {
+        c.peer.send(&ack_packet(v5, AckT::PubAck, pid));
+    } else {
+        c.peer.send(&ack_packet(v5, AckT::PubRec, pid));
+        c.settle().await;
+        c.peer.send(&ack_packet(v5, AckT::PubComp, pid));
+    }
+    c.settle().await;
+    if !matches!(op2.result(), Some(r) if r.is_ok()) || !app.stops().is_empty() {
+        vio.push(("correctly acknowledged retry did not complete successfully".into(), format!("{:?}, stops {:?} — {what}", op2.result(), app.stops())));
+    }
+    c.finish().await;
+    vio
+}
+
 pub fn run(opts: &Opts) -> i32 {
     let rep = Report::new(
         opts,
@@ -273,7 +355,8 @@ pub fn run(opts: &Opts) -> i32 {
         "A: seeded random walks with a correct in-order peer and senders that fail locally; B: exhaustive wrong-ack \
          matrix {Q1, Q2 awaiting PUBREC, Q2 awaiting PUBCOMP, SUBSCRIBE, UNSUBSCRIBE, nothing} x {PUBACK, PUBREC, PUBCOMP, \
          SUBACK, UNSUBACK} x {right id, second outstanding id, unknown id} x {one / two outstanding} + duplicate acks, 4 \
-         roles (server roles: publish acks only); C: long acknowledged history (id wrap-around in the thorough tier). \
+         roles (server roles: publish acks only); C: long acknowledged history with three sends outstanding at a time (id \
+         wrap-around in the thorough tier); D: retry with the same caller-chosen id after a send that failed locally. \
          distinct = distinct boundary-event trace signatures",
     );
     let quick = opts.tier == Tier::Quick;
@@ -390,6 +473,35 @@ pub fn run(opts: &Opts) -> i32 {
                 replay: json!({"matrix_case": descr}),
             }),
             Run::Livelock(_tail) => rep.violation(Violation { signature: format!("{}: live-lock", role.name()), what: "step budget exhausted".into(), replay: json!({"matrix_case": descr}) }),
+            Run::Watchdog => rep.inconclusive("watchdog"),
+        }
+        r.after()
+    });
+
+    // ---- D
+    let mut retry: Vec<(Role, u8, u8, u16)> = Vec::new();
+    for role in Role::ALL {
+        for fail in 0..2u8 {
+            for qos in 1..=2u8 {
+                for pid in [1u16, 7, 65535] {
+                    retry.push((role, fail, qos, pid));
+                }
+            }
+        }
+    }
+    pool::par_for(retry.len() as u64, None, |i| {
+        let (role, fail, qos, pid) = retry[i as usize];
+        let r = exec(retry_case(role, fail, qos, pid));
+        rep.eval();
+        match &r {
+            Run::Done(v, _) => {
+                rep.count("retry_after_local_failure_cases", 1);
+                for (class, what) in v {
+                    rep.violation(Violation { signature: format!("{}: {}", role.name(), pool::abstract_numbers(class)), what: format!("{class} — {what}"), replay: json!({"retry": [role.name(), fail, qos, pid]}) });
+                }
+            }
+            Run::Panic(p, _) => rep.violation(Violation { signature: format!("{}: {}", role.name(), p.signature()), what: format!("panic: {} at {}", p.msg, p.location), replay: json!({"retry": [role.name(), fail, qos, pid]}) }),
+            Run::Livelock(_) => rep.violation(Violation { signature: format!("{}: live-lock", role.name()), what: "never quiescent".into(), replay: json!({"retry": [role.name(), fail, qos, pid]}) }),
             Run::Watchdog => rep.inconclusive("watchdog"),
         }
         r.after()
